@@ -514,10 +514,21 @@ def general(prog, rep):
     rep.floor("C02.6", 4)
 
 
+# objects are zero-filled at birth: the functions of these units rely on it for every field their constructors do not store
+_run_clauses = run
+
+
+def run(prog, rep):
+    _run_clauses(prog, rep)
+    from plint.wiring import check_zero_init
+    check_zero_init(rep, "C02.3", prog, ['prwlock-general.c', 'prwlock-posix.c'], 2)
+
 # generic robustness battery: renaming every local/parameter in these files must not change any verdict
 RENAME_LOCALS = ['src/prwlock-posix.c', 'src/prwlock-general.c']
 
 SELFTEST = [
+    dict(id="general-new-raw-malloc", file="src/prwlock-general.c", expect="C02.3",
+         old="(ret = p_malloc0 (sizeof (PRWLock)))", new="(ret = p_malloc (sizeof (PRWLock)))"),
     dict(id="posix-writer-preferring-kind", file="src/prwlock-posix.c", expect="C02.1",
          old="\tif (P_UNLIKELY (pthread_rwlock_init (&ret->hdl, NULL) != 0)) {",
          new="\tpthread_rwlockattr_t attr;\n\tpthread_rwlockattr_init (&attr);\n\tpthread_rwlockattr_setkind_np (&attr, PTHREAD_RWLOCK_PREFER_WRITER_NONRECURSIVE_NP);\n\tif (P_UNLIKELY (pthread_rwlock_init (&ret->hdl, &attr) != 0)) {"),
